@@ -12,6 +12,7 @@
 EXTENDS FxSigma, FxViews, Json
 
 CONSTANTS Names,      \* atoms usable alone and in pairs
+          Solo,       \* atoms used alone only (extreme parameter values whose products leave the 32-bit range)
           Pool,       \* atoms usable in blocks / longer chains
           Templates
 
@@ -25,7 +26,7 @@ Cont(kind, n) == [k |-> kind, sh |-> <<>>, dt |-> "", ch |-> [i \in 1..n |-> OpL
 Blk(kind, cont, ops) == Term(kind, 0, cont, <<>>, ops)
 
 NSlots(t) == CASE t = 1 -> 1 [] t \in {2, 3, 4, 6} -> 2 [] t = 5 -> 1 [] t = 7 -> 1 [] t \in {8, 9} -> 3
-SlotDomain(t) == IF t \in {1, 2, 5} THEN Names ELSE Pool
+SlotDomain(t) == IF t = 1 THEN Names \cup Solo ELSE IF t \in {2, 5} THEN Names ELSE Pool
 
 Assemble(t, c, b, x) ==
   CASE t = 1 -> x[1]
@@ -86,7 +87,7 @@ BuildRefused ==
        /\ subj' = Assemble(tpl, ck, bk, x) /\ phase' = "refused"
   /\ UNCHANGED <<tpl, ck, bk, mode, slots>>
 
-Next == (\E n \in Names \cup Pool : Pick(n)) \/ Build \/ BuildRefused
+Next == (\E n \in Names \cup Pool \cup Solo : Pick(n)) \/ Build \/ BuildRefused
 
 -----------------------------------------------------------------------------
 Done == phase = "done"
